@@ -425,6 +425,7 @@ void checkResults(const sess::History& h, const Model& m, vf::Result& res) {
         if (g.legal.size() == 1) res.counters["probe_single_legal_move_root"]++;
         // --- info lines
         int lastMultipv = 0;
+        long scoreLines = 0, linesWithIndex = 0;
         std::vector<std::string> reportFirstMoves;
         int maxLines = std::min<int>(g.multiPV, (int)g.legal.size());
         for (int i = g.firstOut; i < g.lastOut; i++) {
@@ -438,6 +439,8 @@ void checkResults(const sess::History& h, const Model& m, vf::Result& res) {
             std::vector<std::string> pv;
             if (!parseScoreLine(t, depth, mate, score, bound, mpv, pv)) continue;
             res.counters["pv_lines_checked"]++;
+            scoreLines++;
+            if (mpv > 0) linesWithIndex++;
             if (mate) {
                 if (score == 0 || score > 8000 || score < -8000)
                     res.violate("C03", "mate-score-range", "line '" + line + "' has mate distance out of range" + ctx);
@@ -482,6 +485,15 @@ void checkResults(const sess::History& h, const Model& m, vf::Result& res) {
                 lastMultipv = mpv;
                 if (mpv > 1) res.counters["probe_multipv_lines"]++;
             }
+        }
+        // An option sent before a go is in effect for that search (C05): MultiPV is observable in the output.
+        // Only full-strength searches are judged (reduced strength may cut the root move list down to one move).
+        if (scoreLines > 0 && g.strength >= 1000 && !g.limitStrength && g.legal.size() >= 2) {
+            res.counters["multipv_effect_checked"]++;
+            if (g.multiPV > 1 && linesWithIndex == 0)
+                res.violate("C05", "option-not-in-effect", "MultiPV=" + std::to_string(g.multiPV) + " was set before this go but no line of its output carries a multipv index" + ctx);
+            if (g.multiPV == 1 && linesWithIndex > 0)
+                res.violate("C05", "option-not-in-effect", "MultiPV=1 but the output carries multipv indices" + ctx);
         }
     }
 }
